@@ -160,6 +160,105 @@ def rule_MP4(rep, prog, k):
                             reload_ops=("load", "cmpxchg", "atomicrmw"), reload_calls=("_dispatch_queue_atomic_flags",))
 
 
+def rule_MP5(rep, prog, k):
+    rid = rep.rule("C16-MP5", "cancelled before activation converges to the same final state: _dispatch_source_activate marks the source installed before it "
+                   "finalises the unregistration (DELETED implies installed), so the invoke never registers the descriptor of an already finalised source", floor=2)
+    fn = prog.fn("_dispatch_source_activate")
+    rep.saw(fn)
+    fin = calls_named(fn, "_dispatch_source_refs_finalize_unregistration")
+    if not fin:
+        rep.unknown(rid, "no finalize_unregistration call in _dispatch_source_activate")
+        return
+    sets = []
+    for st in fn.all_insts():
+        if st.op == "store" and "ds_is_installed" in prog.fields(st):
+            v = fn.inst(st.ops[0])
+            if (v is not None and v.op == "or" and v.ops[1][0] == "c" and v.ops[1][1]) or (st.ops[0][0] == "c" and st.ops[0][1]):
+                sets.append(st)
+    for c in fin:
+        ok = any(fn.dominates(st, c) for st in sets)
+        rep.require(rid, ok, c.loc, fn.name, "finalised-without-installed-mark",
+                    "_dispatch_source_activate finalises the unregistration of a source cancelled before activation (sets DELETED) without marking it "
+                    "installed: wakeup and invoke still see 'not installed', take it to the manager queue and register its descriptor AFTER the cancel "
+                    "handler was allowed to run; the registration is never removed", sample={"call": c.loc, "installed_stores": len(sets)})
+    # sibling: the install in the invoke is keyed on that mark
+    fn = prog.fn("_dispatch_source_invoke2")
+    rep.saw(fn)
+    inst = calls_named(fn, "_dispatch_source_install")
+    if not inst:
+        rep.unknown(rid, "no _dispatch_source_install call in _dispatch_source_invoke2")
+        return
+    for c in inst:
+        cx = paths.dom_ctx(fn, c)
+        ok = False
+        for cid, tv in cx.truth.items():
+            t = fn.insts[cid]
+            if t.op == "icmp" and t.d["pred"] in ("eq", "ne"):
+                a = fn.inst(t.ops[0])
+                while a is not None and a.op in ("and", "trunc", "zext", "lshr"):
+                    a = fn.inst(a.ops[0])
+                if a is not None and a.op == "load" and "ds_is_installed" in prog.fields(a):
+                    ok = True
+        rep.require(rid, ok, c.loc, fn.name, "install-not-keyed-on-installed-mark",
+                    "_dispatch_source_invoke2 installs the source without a dominating test of ds_is_installed", sample={"call": c.loc})
+
+
+def rule_MP6(rep, prog, k):
+    rid = rep.rule("C16-MP6", "on the target queue: in _dispatch_source_invoke2 the cancel handler callout is reached only with dq == ds->do_targetq established, or "
+                   "with the cancel handler tested absent; the event and registration callouts only with dq == ds->do_targetq", floor=3)
+    kk = consts.get(["DS_CANCEL_HANDLER"], unit="source")
+    fn = prog.fn("_dispatch_source_invoke2")
+    rep.saw(fn)
+    cur = calls_named(fn, "_dispatch_queue_get_current")
+    def on_tq(cx):
+        for cid, tv in cx.truth.items():
+            t = fn.insts[cid]
+            if t.op == "icmp" and t.d["pred"] in ("eq", "ne") and tv == (t.d["pred"] == "eq"):
+                a, b = fn.inst(t.ops[0]), fn.inst(t.ops[1])
+                for x, y in ((a, b), (b, a)):
+                    if x is not None and y is not None and x in cur and y.op == "load" and "do_targetq" in prog.fields(y) and root_ptr(fn, y.d["ptr"]["base"]) == ("a", 0):
+                        return True
+        return False
+    def no_cancel_handler(cx):
+        for cid, tv in cx.truth.items():
+            t = fn.insts[cid]
+            if t.op == "icmp" and t.d["pred"] in ("eq", "ne") and t.ops[1][0] == "n" and tv == (t.d["pred"] == "eq"):
+                g = fn.inst(t.ops[0])
+                if g is not None and g.op == "call" and g.callee == "_dispatch_source_get_handler" and g.ops[1][0] == "c" and g.ops[1][1] == kk["DS_CANCEL_HANDLER"]:
+                    return True
+        return False
+    idom, _ = fn.idom()
+    sites = [(c, True) for c in calls_named(fn, "_dispatch_source_cancel_callout")] + \
+            [(c, False) for c in calls_named(fn, ("_dispatch_source_latch_and_call", "_dispatch_source_registration_callout"))]
+    if len(sites) < 3 or not cur:
+        rep.unknown(rid, "anchor vanished in _dispatch_source_invoke2: callouts=%d current-queue reads=%d" % (len(sites), len(cur)))
+        return
+    for c, is_cancel in sites:
+        # sound for any dominator: if every path from a dominating block to the callout establishes the fact, it holds at the callout
+        sb = c.block.id
+        bad, np_ = None, 0
+        for level in range(4):
+            sb = idom.get(sb, sb)
+            start = fn.blocks[sb].insts[0]
+            ctx = paths.dom_ctx(fn, start)
+            bad, np_ = None, 0
+            try:
+                for kind, inst, c2, path in paths.walk(fn, start, lambda i: i is c, ctx=ctx, bound=4000):
+                    if kind != "hit":
+                        continue
+                    np_ += 1
+                    if not (on_tq(c2) or (is_cancel and no_cancel_handler(c2))):
+                        bad = path
+            except AnalysisBroken:
+                break
+            if bad is None and np_ >= 1:
+                break
+        rep.require(rid, bad is None and np_ >= 1, c.loc, fn.name, "callout-off-target-queue:%s" % c.callee,
+                    "_dispatch_source_invoke2 reaches %s on a path (%s) that neither established dq == ds->do_targetq nor (for the cancel handler) that no "
+                    "cancel handler is set: the handler runs on the manager thread, unserialised with the source's target queue" % (c.callee, bad),
+                    sample={"callout": c.callee, "paths": np_})
+
+
 def run(rep, tier="quick", srcdir=None, only=None):
     prog, units = load(UNITS, tier, srcdir)
     rep.units = units
@@ -173,6 +272,10 @@ def run(rep, tier="quick", srcdir=None, only=None):
         rule_OD3(rep, prog, k)
     if want("C16-MP4"):
         rule_MP4(rep, prog, k)
+    if want("C16-MP5"):
+        rule_MP5(rep, prog, k)
+    if want("C16-MP6"):
+        rule_MP6(rep, prog, k)
 
 
 MANIFEST = {
